@@ -149,7 +149,8 @@ def scheme_fields(scheme, keytype, bits=None):
         # per-value instantiation of the bit length of q (the arithmetic of RFC 6979 2.3.4 is non-linear in it)
         f['_order_bits'], f['_order_bytes'] = ('const', bits), ('const', (bits - 1) // 8 + 1)
     if scheme == DET:
-        f['_private_key'] = OINT + '|none'
+        # new(): getattr(key, 'd') is an Integer for an EccKey, getattr(key, 'x') an int for a DsaKey (DsaKey.__getattr__)
+        f['_private_key'] = (OINT if keytype == 'ecc' else 'int') + '|none'
     else:
         f['_randfunc'] = RANDFUNC + '|none'
     return f
@@ -172,7 +173,7 @@ def scheme_valid(scheme, keytype):
         has = 'self._key._d is not None' if keytype == 'ecc' else 'hasattr(self._key._key, "x")'
         # new(): private_key = key.d / key.x when the key has a private half, else None
         v.append('(self._private_key is not None) == (%s)' % has)
-        v.append('self._private_key is None or self._private_key._value == %s._value' % priv)
+        v.append('self._private_key is None or int(self._private_key) == %s._value' % priv)
     return v
 
 
@@ -208,7 +209,7 @@ def verify_contract(scheme, keytype):
 
 def det_k(keytype):
     """RFC 6979 3.2: k as a function of (hash algorithm, private key, digest, q) only"""
-    return ('spec.rfc6979.generate_k(msg_hash.g_alg, msg_hash.digest_size, self._private_key._value, %s, self._order._value, '
+    return ('spec.rfc6979.generate_k(msg_hash.g_alg, msg_hash.digest_size, int(self._private_key), %s, self._order._value, '
             'self._order_bits, self._order_bytes)' % DIGEST)
 
 
@@ -231,15 +232,17 @@ def nonce_loops(nonce_type):
     later = ('(not isinstance(nonce, int)) ==> (len(mask_t) >= self._order_bytes and nonce._value == spec.rfc6979.bits2int(mask_t, self._order_bits) '
              'and %s == %s)' % (target, g % 'mask_t'))
     fill = '%s == %s' % (target, g % 'mask_t')
-    return {1: {'invariant': [first, later], 'types': {'nonce': nonce_type, 'mask_t': 'bytes'}},
-            2: {'invariant': [fill]}}
+    u = g.replace('gen_k_from', 'unfold')       # the defining equation of gen_k_from at the current state (a ground lemma instance)
+    return {1: {'invariant': ['isinstance(nonce, int) ==> ' + u % 'b""', '(not isinstance(nonce, int)) ==> ' + u % 'mask_t', first, later],
+                'types': {'nonce': nonce_type, 'mask_t': 'bytes'}},
+            2: {'invariant': [u % 'mask_t', fill]}}
 
 
 def compute_nonce_contract(scheme, keytype, assumed=None, nonce_type=OINT):
     if scheme == DET:
         return Contract(D + DET + '._compute_nonce', params={'mhash': OHASH}, loops=nonce_loops(nonce_type),
                         requires=['self._private_key is not None',
-                                  '0 < self._private_key._value and self._private_key._value < self._order._value'],
+                                  '0 < int(self._private_key) and int(self._private_key) < self._order._value'],
                         raises={},
                         ensures={'rfc6979_3_2': 'result._value == ' + det_k(keytype).replace('msg_hash', 'mhash'),
                                  'range': '0 < result._value and result._value < self._order._value',
@@ -301,11 +304,11 @@ def helper_contracts(reg, blen=None, bits=None):
     reg.add(Contract(D + DET + '._bits2int', params={'bstr': 'bytes'}, raises={},
                      ensures={'rfc6979_2_3_2': 'result._value == spec.rfc6979.bits2int(bstr, %s)' % qlen},
                      modifies=[], result=OINT))
-    reg.add(Contract(D + DET + '._int2octets', params={'int_mod_q': OINT},
+    reg.add(Contract(D + DET + '._int2octets', params={'int_mod_q': OINT + '|int'},
                      # RFC 6979 2.3.3: defined for every 0 <= x < q.  The code asserts 0 < x: _int2octets(0) raises AssertionError
                      # (FINDING, natively confirmed; reached from sign() when bits2int(H(m)) is 0 or q)
-                     requires=['0 <= int_mod_q._value and int_mod_q._value < ' + q], raises={},
-                     ensures={'rfc6979_2_3_3': 'result == spec.rfc6979.int2octets(int_mod_q._value, %s)' % rl, 'length': 'len(result) == ' + rl},
+                     requires=['0 <= int(int_mod_q) and int(int_mod_q) < ' + q], raises={},
+                     ensures={'rfc6979_2_3_3': 'result == spec.rfc6979.int2octets(int(int_mod_q), %s)' % rl, 'length': 'len(result) == ' + rl},
                      modifies=[], result='bytes'))
     # proved per value of (bit length of q, len(bstr)): z1 - q < q needs 2^(qlen-1) <= q and bits2int(b) < 2^qlen, which is
     # non-linear for symbolic lengths (see units(): the standard (q, hash) size pairs; exhaustive in the data)
@@ -314,34 +317,132 @@ def helper_contracts(reg, blen=None, bits=None):
                      modifies=[], result='bytes', options={'int_lemmas': sorted({8 * blen, bits, bits - 1, abs(8 * blen - bits)}) if blen is not None else []}))
 
 
-def registry(scheme=DET, keytype='ecc', bits=None, blen=None, nonce_type=OINT):
+def init_contracts(reg, keytype):
+    """the constructors: fields are set as given; order_bits / order_bytes are the bit and octet length of the order;
+    FipsDsaSigScheme refuses (L, N) pairs outside FIPS 186-3 4.2"""
+    arith = {'bits': 'self._order_bits == spec.mathint.size_in_bits(order._value)',
+             'bytes': 'self._order_bytes == (self._order_bits - 1) // 8 + 1',
+             'bit_length': 'pow2(self._order_bits - 1) <= order._value and order._value < pow2(self._order_bits)',
+             'fits': 'order._value < pow2(8 * self._order_bytes)',
+             'fields': 'self._key is key and self._encoding == encoding and self._order is order'}
+    base = dict(params={'key': key_type(keytype), 'encoding': "enum('binary','der')", 'order': OINT},
+                requires=['order._value >= 1', 'valid(key)'], raises={}, modifies=None, options={'assume_valid': False, 'int_lemmas': []},
+                # effect at call sites (the same facts are proved as `ensures`)
+                sets={'self._key': 'key', 'self._encoding': 'encoding', 'self._order': 'order',
+                      'self._order_bits': 'spec.mathint.size_in_bits(order._value)',
+                      'self._order_bytes': '(spec.mathint.size_in_bits(order._value) - 1) // 8 + 1'})
+    reg.add(Contract(D + 'DssSigScheme.__init__', self_type='obj:' + D + DET, ensures=dict(arith), **base))
+    b = dict(base, params=dict(base['params'], private_key=(OINT if keytype == 'ecc' else 'int') + '|none'),
+             sets=dict(base['sets'], **{'self._private_key': 'private_key'}))
+    reg.add(Contract(D + DET + '.__init__', ensures=dict(arith, private=('self._private_key is private_key' if keytype == 'ecc' else
+                                                                   '(self._private_key is None) == (private_key is None) and (private_key is None or self._private_key == private_key)')), **b))
+    b = dict(base, params=dict(base['params'], randfunc=RANDFUNC + '|none'), sets=dict(base['sets'], **{'self._randfunc': 'randfunc'}))
+    reg.add(Contract(D + FEC + '.__init__', ensures=dict(arith, randfunc='self._randfunc is randfunc'), **b))
+    if keytype == 'dsa':
+        b = dict(b, raises={'ValueError': ('iff', 'not spec.fips186.fips_l_n_ok(spec.mathint.size_in_bits(key._key.p._value), spec.mathint.size_in_bits(order._value))')})
+        reg.add(Contract(D + FDSA + '.__init__', ensures=dict(arith, randfunc='self._randfunc is randfunc'), **b))
+
+
+CURVES = "enum('NIST P-192','NIST P-224','NIST P-256','NIST P-384','NIST P-521','Ed25519','Ed448','Curve25519','Curve448')"
+
+
+def new_contract(keytype, mode=None):
+    """DSS.new: ValueError iff the encoding, the key type/curve, the mode or (FIPS mode, DSA) the (L, N) pair is not admitted;
+    otherwise an object of the class of the mode whose fields satisfy the scheme invariant (order = order of the key's group,
+    private key = the key's private half or None)"""
+    ktypes = key_type(keytype) + '|none'
+    is_key = 'isinstance(key, %s)' % ('EccKey' if keytype == 'ecc' else 'DsaKey')
+    curve_ok = 'key.curve.startswith("NIST")' if keytype == 'ecc' else 'True'
+    ln_ok = ('True' if keytype == 'ecc' else
+             '(mode != "fips-186-3" or spec.fips186.fips_l_n_ok(spec.mathint.size_in_bits(key._key.p._value), spec.mathint.size_in_bits(key._key.q._value)))')
+    ok = "encoding in ('binary', 'der') and %s and %s and mode in ('deterministic-rfc6979', 'fips-186-3') and %s" % (is_key, curve_ok, ln_ok)
+    cls_det, cls_fips = 'DeterministicDsaSigScheme', ('FipsEcDsaSigScheme' if keytype == 'ecc' else 'FipsDsaSigScheme')
+    # `mode` is instantiated per alternative in the units (three smaller proofs instead of one)
+    return Contract(D + 'new', params={'key': ktypes, 'mode': mode or "enum('deterministic-rfc6979','fips-186-3')|str",
+                                       'encoding': "enum('binary','der')|str", 'randfunc': RANDFUNC + '|none'},
+                    raises={'ValueError': ('iff', 'not (%s)' % ok)},
+                    ensures={'class': 'isinstance(result, %s) == (mode == "deterministic-rfc6979") and isinstance(result, %s) == (mode == "fips-186-3")' % (cls_det, cls_fips),
+                             'key': 'result._key is key and result._encoding == encoding',
+                             'randfunc': 'mode == "fips-186-3" ==> result._randfunc is randfunc',
+                             'invariant': 'valid(result)'},
+                    modifies=None, options={'int_lemmas': []})
+
+
+def registry(scheme=DET, keytype='ecc', bits=None, blen=None, nonce_type=OINT, feas_ms=150, new_mode=None):
     reg = common_registry()
     add_ecc_key(reg)
     add_dsa_key(reg)
     add_der_sequence(reg)
     add_hmac(reg)
     bits, blen = (int(bits) if bits else None), (int(blen) if blen else None)
-    reg.add(ClassContract(D + scheme, fields=scheme_fields(scheme, keytype, bits), valid=scheme_valid(scheme, keytype)))
-    reg.add(valid_hash_contract(scheme, keytype))
-    if scheme == DET:
-        reg.add(compute_nonce_contract(scheme, keytype, nonce_type=nonce_type))
-    else:
-        add_entropy_contract(reg, compute_nonce_contract(scheme, keytype), draws_by_randfunc())
-    if scheme == DET:
-        helper_contracts(reg, blen, bits)
+    if feas_ms:
+        # feasibility pruning only (an undecided feasibility query keeps the path): a short budget is sound
+        from vf.pyvc import interp
+        interp.FEAS_TIMEOUT_MS = min(interp.FEAS_TIMEOUT_MS, int(feas_ms))
+    for sc in (DET, FDSA, FEC):
+        if (sc, keytype) not in VARIANTS:
+            continue
+        reg.add(ClassContract(D + sc, fields=scheme_fields(sc, keytype, bits), valid=scheme_valid(sc, keytype)))
+        reg.add(valid_hash_contract(sc, keytype))
+        if sc == DET:
+            reg.add(compute_nonce_contract(sc, keytype, nonce_type=nonce_type))
+            helper_contracts(reg, blen, bits)
+        else:
+            add_entropy_contract(reg, compute_nonce_contract(sc, keytype), draws_by_randfunc())
+    reg.add(ClassContract(ECC + 'EccKey', fields=dict(reg.classes[ECC + 'EccKey'].fields, curve=CURVES), valid=reg.classes[ECC + 'EccKey'].valid))
+    init_contracts(reg, keytype)
+    reg.add(new_contract(keytype, new_mode))
     reg.add(verify_contract(scheme, keytype))
     reg.add(sign_contract(scheme, keytype))
     return reg
 
 
+Q_BITS = (160, 224, 256, 384, 521)        # bit lengths of q: FIPS 186 DSA N values and the NIST P curves
+H_LENS = (20, 28, 32, 48, 64)               # digest sizes of SHA-1 / SHA-2 / SHA-3
+
+
 def units(prop, tier):
     from vf.pyunit import pyvc_unit
-    if prop != 'C04':
+    if prop not in ('C04', 'C18', 'C19'):
         return []
+
+    def u(uid, targets, *regargs, **regkw):
+        return pyvc_unit(prop, uid, (lambda a=regargs, k=regkw: registry(*a, **k)), targets)
     out = []
-    out.append(pyvc_unit(prop, 'sig.ecdsa.EccKey._verify', registry, [ECC + 'EccKey._verify']))
-    out.append(pyvc_unit(prop, 'sig.dsa.DsaKey._verify', registry, [DSA + 'DsaKey._verify']))
-    for scheme, keytype in VARIANTS:
-        out.append(pyvc_unit(prop, 'sig.dss.verify.%s.%s' % (scheme, keytype),
-                             (lambda s=scheme, k=keytype: registry(s, k)), [D + 'DssSigScheme.verify']))
+    sign_units = [u('sig.dss.sign.%s.%s' % (sc, kt), [D + 'DssSigScheme.sign'], sc, kt) for sc, kt in VARIANTS]
+    key_sign = [u('sig.ecdsa.EccKey._sign', [ECC + 'EccKey._sign']), u('sig.dsa.DsaKey._sign', [DSA + 'DsaKey._sign'])]
+    fips_nonce = [u('sig.dss.nonce.fips.ecdsa', [D + FEC + '._compute_nonce'], FEC, 'ecc'),
+                  u('sig.dss.nonce.fips.dsa', [D + FDSA + '._compute_nonce'], FDSA, 'dsa')]
+    det_nonce = []
+    for kt in ('ecc', 'dsa'):
+        # the two runs of the induction over the candidate loop (see nonce_loops)
+        det_nonce.append(u('sig.dss.rfc6979.nonce.first.' + kt, [D + DET + '._compute_nonce'], DET, kt, nonce_type='int', feas_ms=100))
+        det_nonce.append(u('sig.dss.rfc6979.nonce.next.' + kt, [D + DET + '._compute_nonce'], DET, kt, nonce_type=OINT, feas_ms=100))
+    if prop == 'C19':
+        # signers read the caller's hash object only through digest() (empty frame): the frame obligations of sign / verify
+        return sign_units + [u('sig.dss.verify.%s.%s' % (sc, kt), [D + 'DssSigScheme.verify'], sc, kt) for sc, kt in VARIANTS]
+    if prop == 'C18':
+        # nonces and blinding factors: range [1, q-1], which tape is read
+        return fips_nonce + key_sign + det_nonce
+    out.append(u('sig.ecdsa.EccKey._verify', [ECC + 'EccKey._verify']))
+    out.append(u('sig.dsa.DsaKey._verify', [DSA + 'DsaKey._verify']))
+    out += key_sign
+    for sc, kt in VARIANTS:
+        out.append(u('sig.dss.verify.%s.%s' % (sc, kt), [D + 'DssSigScheme.verify'], sc, kt))
+    out += sign_units
+    out.append(u('sig.dss.valid_hash', [D + DET + '._valid_hash', D + FEC + '._valid_hash'], FEC, 'ecc'))
+    out.append(u('sig.dss.valid_hash.dsa', [D + FDSA + '._valid_hash'], FDSA, 'dsa'))
+    out += fips_nonce + det_nonce
+    out.append(u('sig.dss.rfc6979.bits2int', [D + DET + '._bits2int'], DET, 'ecc'))
+    # FINDING (natively confirmed): _int2octets(0) trips `assert 0 < int_mod_q`; RFC 6979 2.3.3 defines it for 0 <= x < q
+    out.append(u('sig.dss.rfc6979.int2octets.ecc', [D + DET + '._int2octets'], DET, 'ecc'))
+    out.append(u('sig.dss.rfc6979.int2octets.dsa', [D + DET + '._int2octets'], DET, 'dsa'))
+    pairs = [(160, 20), (256, 32), (256, 64), (384, 32), (521, 64)] if tier == 'quick' else [(b, h) for b in Q_BITS for h in H_LENS]
+    for bits, blen in pairs:
+        out.append(u('sig.dss.rfc6979.bits2octets.q%d.h%d' % (bits, blen), [D + DET + '._bits2octets'], DET, 'ecc', bits=bits, blen=blen))
+    for kt in ('ecc', 'dsa'):
+        inits = [D + 'DssSigScheme.__init__', D + DET + '.__init__', D + (FEC if kt == 'ecc' else FDSA) + '.__init__']
+        out.append(u('sig.dss.init.' + kt, inits, DET, kt))
+        for nm, mode in (('det', "enum('deterministic-rfc6979')"), ('fips', "enum('fips-186-3')"), ('other', 'str')):
+            out.append(u('sig.dss.new.%s.%s' % (kt, nm), [D + 'new'], DET, kt, new_mode=mode))
     return out
